@@ -79,8 +79,8 @@ for _p, _t in {
            "incremented by w (squared error by w*w), under/overflow/gap bookkeeping, statistics, dtype; Histogram1D.fill_n for a batch of ANY length (every bin gains the weight of exactly "
            "the batch entries inside it -- what folding fill over the batch adds; loop invariant + inductive lemmas of C01); HistogramND.fill of one point into a 2-D histogram of ANY shape "
            "(the reported cell contains the point on both axes, exactly that cell gains the weight, otherwise `missed` does). ",
-    "C05": "Unbounded (any number of bins): __iadd__ of histograms over the same bins adds contents and squared errors bin by bin, missed values, dtype promotion, other operand untouched; __add__ gives the same sum in a new histogram that shares no binning object "
-           "with either operand, both operands untouched. ",
+    "C05": "Unbounded (any number of bins): __iadd__ of histograms over the same bins adds contents and squared errors bin by bin, missed values, statistics, dtype promotion, other operand untouched; __add__ gives the same sum in a new histogram that shares no binning object "
+           "with either operand, both operands untouched; __iadd__ with another bin count, an edge differing beyond the tolerance, another dimension or a non-histogram operand is refused and nothing changes. ",
     "C06": "Unbounded (any number of bins): __imul__ / __itruediv__ scale every content by c and every squared error by c*c (a negative factor on a non-empty histogram is refused with the contents untouched); in-place normalize keeps "
            "proportions; *, / and normalize(inplace=False) give the same in a new histogram, the operand untouched. ",
     "C12": "Unbounded: Histogram1D.copy shares nothing writable for any number of bins; slices h[a:b], 2-D projections, T, +, *, / and normalize(inplace=False) are independent of their operands. ",
@@ -107,5 +107,6 @@ CHECKS["C04"] = {"category": "proof", "technique": "contract-based deductive ver
            "(moved by the bins added on the left), growth on one side only and no further than the bin of the value, missed values untouched. The empty histogram, fill_n and '+' of adaptive "
            "histograms are checked bounded (initial count <= 2, growth <= 4 bins per call).",
    "note": _NOTE + "Mode R for the proofs. The rounding behaviour of floor/ceil on binary64 (e.g. width 0.1, value 1.7) is covered only by the decimal-literal cross-check on the real code (bounded stand-in, finding F6 fixed), not by proof."}
-CHECKS["C14"]["text"] += " Statistics clauses of Histogram1D.fill / fill_n / + / * / / / copy are attached to those functions (bounded)."
+CHECKS["C14"]["text"] += (" Statistics clauses of Histogram1D.fill / fill_n / + / * / / / copy are attached to those functions (bounded); for ANY number of bins (unbounded) the "
+                          "statistics clauses of fill, fill_n (any batch length), +=, + and *= are discharged too.")
 NOT_APPLICABLE = {}
